@@ -40,6 +40,7 @@ type Rec struct {
 	Ftype   int    `json:"ftype"`
 	Egress  int    `json:"egress"`
 	Ingress int    `json:"ingress"`
+	Prio    int    `json:"prio"` // ingressNetworkPolicyRulePriority (signed32; 0 = empty)
 	Start   int    `json:"start"`
 	End     int    `json:"end"`
 	Vals    []int  `json:"vals"`
@@ -127,6 +128,7 @@ func BuildRecord(r Rec) entities.Record {
 		entities.NewUnsigned8InfoElement(ie("flowType", a), uint8(r.Ftype)),
 		entities.NewUnsigned8InfoElement(ie("egressNetworkPolicyRuleAction", a), uint8(r.Egress)),
 		entities.NewUnsigned8InfoElement(ie("ingressNetworkPolicyRuleAction", a), uint8(r.Ingress)),
+		entities.NewSigned32InfoElement(ie("ingressNetworkPolicyRulePriority", a), int32(r.Prio)),
 	)
 	return entities.NewDataRecordFromElements(256, elems, true)
 }
@@ -200,6 +202,12 @@ func u64(m map[string]interface{}, n string) int {
 	}
 	return -1
 }
+func s32(m map[string]interface{}, n string) int {
+	if v, ok := m[n].(int32); ok {
+		return int(v)
+	}
+	return -999
+}
 func str(m map[string]interface{}, n string) string {
 	if v, ok := m[n].(string); ok {
 		return v
@@ -227,7 +235,7 @@ func (p *P) FlowProjOf(name string, m map[string]interface{}, ready, filled bool
 		return out
 	}
 	return Ev{"k": name, "sp": str(m, "sourcePodName"), "dp": str(m, "destinationPodName"), "sns": str(m, "sourcePodNamespace"), "dns": str(m, "destinationPodNamespace"),
-		"ftype": u64(m, "flowType"), "egress": u64(m, "egressNetworkPolicyRuleAction"), "ingress": u64(m, "ingressNetworkPolicyRuleAction"),
+		"ftype": u64(m, "flowType"), "egress": u64(m, "egressNetworkPolicyRuleAction"), "ingress": u64(m, "ingressNetworkPolicyRuleAction"), "prio": s32(m, "ingressNetworkPolicyRulePriority"),
 		"start": u64(m, "flowStartSeconds"), "end": u64(m, "flowEndSeconds"), "endS": u64(m, "flowEndSecondsFromSourceNode"), "endD": u64(m, "flowEndSecondsFromDestinationNode"),
 		"com": vec(StatsElements), "frS": vec(srcStats), "frD": vec(dstStats), "tp": vec(tput), "tpS": vec(tputS), "tpD": vec(tputD),
 		"reason": u64(m, "flowEndReason"), "ready": ready, "retries": 0, "filled": filled}
